@@ -81,7 +81,11 @@ func ruleMultiStream(c *Ctx, r *Report, prefix string) {
 			buf = ref.root
 			return true
 		}
+		allZerosFn := c.funcQuiet("", "allZeros")
 		g := o.boolCall("V28-padding-probe", func(call *ssa.Call) bool {
+			if allZerosFn != nil && call.Call.StaticCallee() == allZerosFn && len(call.Call.Args) == 1 {
+				return isProbe(call.Call.Args[0]) // allZeros(data[:4]) is the same test
+			}
 			if stdCalleeName(call) != "bytes.Equal" {
 				return false
 			}
